@@ -755,6 +755,18 @@ class TrajectoryStore:
         for name, field in trajectory._data_dictionary.items():
             if field.required and trajectory._data.get(name) is None:
                 raise ValueError(f'Data field "{name}" is None')
+        if self.nc_linked:
+            # The species dimension of the files was fixed when they were
+            # created: species that do not fit cannot be written.
+            allowed: set[Species] = set()
+            for nc_files in self._nc_files:
+                allowed.update(nc_files.species or [])
+            unknown = [sp.name for sp in trajectory.species if sp not in allowed]
+            if unknown:
+                raise ValueError(
+                    f'Trajectory has species {unknown} that are not in the '
+                    'species dimension of the NetCDF files'
+                )
 
         if self.indexable is None:
             self.indexable = has_flight_id
